@@ -77,6 +77,9 @@ def parse_grid(line):
         n = int(w[p + 1]); p += 2
         vals = w[p:p + n]; p += n
         g[key] = [int(v) for v in vals] if key == "per" else [float.fromhex(v) for v in vals]
+    if p < len(w) and w[p] == "E":      # behaviour one bin past each edge (restart-form reads)
+        n = int(w[p + 1])
+        g["edge"] = [int(v) for v in w[p + 2:p + 2 + n]]
     return g
 
 
@@ -99,6 +102,8 @@ def grids_differ(a, b, tol, keys=("mult", "nx", "lower", "upper", "width", "per"
             if len(x) != len(y) or any(not (close(u, v, tol) or (sc is not None and abs(u - v) <= tol * sc[i_]))
                                        for i_, (u, v) in enumerate(zip(x, y))):
                 return "%s: %s vs %s" % (k, x[:8], y[:8])
+    if "edge" in a and "edge" in b and a["edge"] != b["edge"]:
+        return "per: one bin past the edges (wrapped index, -9 = outside): %s vs %s" % (a["edge"], b["edge"])
     return None
 
 
@@ -248,15 +253,28 @@ def gen_io_case(r, k):
             periodic = r.random() < 0.4
             cv = {"lower": lo, "upper": up, "width": w, "period": (up - lo) if periodic else 0.0}
             # the grid that is written: the variables' own definition, or an expanded / shifted one
+            def sub_interval():
+                # part of the period (at least one bin shorter): the grid of a periodic variable is then not periodic
+                if n < 2:
+                    return {"lower": lo, "upper": up, "width": w}
+                a_ = r.randint(0, n - 1)
+                b_ = r.randint(a_ + 1, n if a_ > 0 else n - 1)
+                return {"lower": lo + a_ * w, "upper": lo + b_ * w, "width": w}
             m = r.random()
-            if m < 0.5 or periodic:
+            if periodic:
+                gd = {"lower": lo, "upper": up, "width": w} if m < 0.5 else sub_interval()
+            elif m < 0.5:
                 gd = {"lower": lo, "upper": up, "width": w}
             else:
                 e1, e2 = r.randint(0, 2), r.randint(0, 2)
                 gd = {"lower": lo - e1 * w, "upper": up + e2 * w, "width": w}
             # the receiving grid's current definition: the variables' own, the written one, or yet another
             m = r.random()
-            if m < 0.4 or periodic:
+            if periodic:
+                # whole period vs sub-interval, both directions: the periodicity flag of the grid read back must be that
+                # of the grid that was written, not of the grid configured before the read
+                g0 = {"lower": lo, "upper": up, "width": w} if m < 0.4 else (dict(gd) if m < 0.55 else sub_interval())
+            elif m < 0.4:
                 g0 = {"lower": lo, "upper": up, "width": w}
             elif m < 0.7:
                 g0 = dict(gd)
@@ -335,12 +353,24 @@ def expected_after_read(c):
     """what the property demands of the grid read back (implementation-only oracle)"""
     f = c["fmt"]
     if f == "state":
+        e = _expected_state(c)
+        # one bin past each edge: wraps to the other end in a periodic dimension, outside (-9) otherwise
+        e["edge"] = [v for n_, p_ in zip(e["nx"], e["per"]) for v in ((n_ - 1, 0) if p_ else (-9, -9))]
+        return e
+    return _expected_other(c)
+
+
+def _expected_state(c):
+    f = c["fmt"]
+    if f == "state":
         geo = c["geo"]
         nx = [int(round((d["upper"] - d["lower"]) / d["width"])) for d in geo]
         per = [1 if (cv["period"] > 0 and abs(((d["upper"] - d["lower"]) / cv["period"]) - round((d["upper"] - d["lower"]) / cv["period"])) * cv["period"] / cv["width"] < 1e-10) else 0
                for cv, d in zip(c["cvs"], geo)]
         return {"mult": c["mult"], "nx": nx, "lower": [d["lower"] for d in geo], "upper": [d["upper"] for d in geo],
                 "width": [d["width"] for d in geo], "per": per, "data": c["data"]}
+def _expected_other(c):
+    f = c["fmt"]
     g, g0 = c["g"], c["g0"]
     if f == "remap":
         import itertools, math
@@ -539,6 +569,10 @@ def run_io(run, r, unit, model, n):
                 run.violation("io:remap", "a multicolumn file read into a grid of another definition (lower %s sizes %s periodic %s, add=%d): %s; every value belongs in the bin that contains its bin centre (modulo the period)" % (
                     c["g0"]["lower"], c["g0"]["nx"], c["g0"]["per"], c["add"], bad),
                     {"kind": "io", "write": write_cmds(c)[0], "read": a, "text": text, "expected": exp, "got": gi})
+            elif bad and f == "state" and bad.startswith("per:"):
+                run.violation("io:state:periodic-flags", "a grid written in restart form with periodicity flags %s (variables' periods %s, boundaries %s..%s) was read by a grid configured on %s..%s and came back with flags %s" % (
+                    exp["per"], [cv["period"] for cv in c["cvs"]], exp["lower"], exp["upper"], [d_["lower"] for d_ in c["geo0"]], [d_["upper"] for d_ in c["geo0"]],
+                    gi["per"] if gi else None), {"kind": "io", "write": write_cmds(c)[0], "read": a, "text": text, "expected": exp, "got": gi})
             elif bad:
                 run.violation("io:roundtrip:" + f, "a grid written in %s form and read back is not the same grid (%s): wrote sizes %s lower %s upper %s widths %s periodic %s, read back %s" % (
                     f, bad, exp["nx"], exp["lower"], exp["upper"], exp["width"], exp["per"],
